@@ -64,6 +64,19 @@ def run(ctx):
             hist = [call("fit", fitb), call("transform", [1, 2, 3, 4, 5, 6]), call("knob", [], 4), call("transform", long1),
                     call("knob", [], 2), call("transform", long2[:7]), call("knob", [], 4), call("transform", long2)]
             jobs.append(dict(adapter=name, cfg=ci, cfg_extra={"_encodings": pool}, seed=ctx.seed, history=hist, idmap=idmap))
+    # the same measures carried by a sparse matrix, by lists and by generators (same explicit reference measure): the configuration
+    # of these adapters IS the input format, and the memo is shared across configurations (Reconf + New)
+    new = {"op": "new", "b": [], "knob": 0, "expect_ok": True}
+    for name in sorted(adapters_lot.FORMATS):
+        for k in range(ctx.pick(2, 8)):
+            order = rng.sample([1, 2, 3], 3)
+            hist = []
+            for pos, ci in enumerate(order):
+                if pos:
+                    hist += [call("reconf", [], ci), new]
+                xs = [rng.choice(members[m]) for m in rng.sample(fitb, 4)]
+                hist += [call("fit", fitb), call("transform", xs), call("transform", [rng.choice(members[m]) for m in (1, 2, 3, 4, 5, 6)])]
+            jobs.append(dict(adapter=name, cfg=order[0] - 1, cfg_extra={"_encodings": pool}, seed=ctx.seed, history=hist, idmap=idmap))
     ctx.log("C08 histories to replay:", len(jobs))
     jobs.sort(key=lambda j: (j["adapter"], j["cfg"]))
 
